@@ -10,9 +10,6 @@ def run(tier, seed):
     res = run_functions(
         ["CParser.parse#prologue", "CParser.parse", "CLexer.input", "CLexer._init_state", "_TokenStream.__init__"],
         "C12/smt", tier)
-    try:
-        from pyvc import fx_obligations
-        res.add(fx_obligations.c12_fx(tier))
-    except ImportError:
-        res.assumptions.append("FX obligations not built yet")
+    from pyvc import fx_obligations
+    res.add(fx_obligations.c12_fx(tier))
     return res
